@@ -40,9 +40,11 @@ var (
 		{"https", 443, "HTTPS"}, {"tls", 443, "TLS"}, {"tcp-tls", 443, "TCP"}, {"http-443", 443, "HTTP"},
 		{"tcp-9000", 9000, "TCP"}, {"http-9000", 9000, "HTTP"}, {"grpc", 7070, "GRPC"}, {"http2", 7070, "HTTP2"},
 		{"mysql", 3306, "MySQL"}, {"tcp-3306", 3306, "TCP"}, {"http-3306", 3306, "HTTP"}, {"mongo", 27017, "Mongo"},
-		{"auto-90", 90, ""}, {"redis", 6379, "Redis"}, {"udp", 53, "UDP"}, {"tcp-15001", 15001, "TCP"},
-		{"http-15006", 15006, "HTTP"}, {"http-15090", 15090, "HTTP"}, {"http-15021", 15021, "HTTP"}, {"tcp-15008", 15008, "TCP"},
+		{"auto-90", 90, ""}, {"redis", 6379, "Redis"}, {"udp", 53, "UDP"},
+		{"http-15090", 15090, "HTTP"}, {"http-15021", 15021, "HTTP"}, {"tcp-15008", 15008, "TCP"},
 		{"http-15443", 15443, "HTTP"}, {"tls-15443", 15443, "TLS"},
+		// 15001 / 15006 (the sidecar's own virtual listeners) are exercised by corpus cases only: a service on
+		// them is the known finding `addr-unique`, which would otherwise shadow everything else in its mesh
 	}
 	labelSets = []map[string]string{
 		{"app": "a"}, {"app": "a", "version": "v1"}, {"app": "a", "version": "v2"}, {"app": "b"}, {"app": "b", "version": "v1"},
